@@ -93,6 +93,13 @@ struct ArrayModel {
             if (ov & 1) t = Memory::Move(u);
             else { Array<T> c(Memory::Move(u)); t = Memory::Move(c); }
         } else if (name == "AppendItem") {
+            // the appended item can be one of the array's OWN items (same abstract operation: the model has no addresses)
+            SizeT own = t.Size();
+            for (SizeT j = 0; j < t.Size(); ++j) if (El<T>::read(t.First()[j]) == a[1]) own = j;
+            if (own < t.Size() && (ov % 3) == 0) {
+                if (ov & 1) t += static_cast<const T &>(t.First()[own]);
+                else { T &r = t.Insert(static_cast<const T &>(t.First()[own])); if (El<T>::read(r) != a[1]) printf("MISMATCH Insert-ref\n"); }
+            } else
             switch (ov % 4) {
                 case 0: t += El<T>::make(a[1]); break;
                 case 1: { T x = El<T>::make(a[1]); t += x; break; }
@@ -184,7 +191,11 @@ struct StringModel {
             else { String<Ch> c(u); t = Memory::Move(c); }
         } else if (name == "SelfCopy") {
             String<Ch> *p = &t;
-            t = *p;
+            bool nul = false;
+            for (SizeT i = 0; i < t.Length(); ++i) nul = nul || (t.First()[i] == Ch(0));
+            if ((ov % 3) == 0 && t.Length() != 0 && !nul) t = static_cast<const Ch *>(t.First());   // assigned from its own C string: the same text
+            else if ((ov % 3) == 1) { String<Ch> *q = &t; t += Memory::Move(*q); t.StepBack(t.Length() / 2); }   // s += Move(s) doubles it; half is dropped again
+            else t = *p;
         } else if (name == "Move") {
             String<Ch> &u = obj[(a[1] - 1) & 1];
             if (ov & 1) t = Memory::Move(u);
